@@ -6,6 +6,7 @@ import itertools
 import sympy as sp
 
 from ..spec import Checker, FR
+from ..values import F  # noqa
 from ..values import Num, StrV, NONE, ExtV, ObjV, TupleV, DictV, BoolV, ClassV, NoneV, Unsupported, DimensionError, ListV
 from ..symeval import Raised
 from ..model import norm
@@ -250,8 +251,32 @@ def r2_reductions(ck, prog, run):
         and norm(rets[0].value.left).startswith("self.max(") and norm(rets[0].value.right).startswith("self.min(")
     ck.same("R2", fp.where, "Phase.ptp", "is max - min of two-part phases (a two-part subtraction)", ok, found=norm(rets[0])[:120] if rets else "?")
     ta = prog.func("Phase._take_along_axis")
+    run.touched(ta)
     arith = [norm(e) for e in ast.walk(ta.node) if isinstance(e, ast.BinOp) and not isinstance(e.op, ast.Sub)]
     ck.same("R2", ta.where, "Phase._take_along_axis", "pure indexing", not [a for a in arith if "ndim" not in a], found=str(arith))
+    # whole-array selection (axis=None): the flat index produced by argmin/argmax/argsort counts elements in logical (C) order
+    from ..symeval import Evaluator
+    A_, B_ = sp.Symbol("A", integer=True, positive=True), sp.Symbol("B", integer=True, positive=True)
+    xarr = Num(sp.Symbol("P"), kind="array", shape=(A_, B_), tag="elemarr")
+    fidx = Num(sp.Symbol("flat_i", integer=True, nonnegative=True), kind="number")
+    ev_t = Evaluator(prog)
+    r = ck.attempt("R2", ta.where, "Phase._take_along_axis(flat index, axis=None)", "evaluates on an opaque element array",
+                   lambda: ev_t.call(ta, [fidx], {}, self_val=xarr))
+    if r is not None:
+        C_ = sp.Symbol("order_C")
+        want = F["Idx"](xarr.expr, F["Unravel"](fidx.expr, C_, A_, B_))
+        got = r.expr if isinstance(r, Num) else None
+        if got is not None:
+            # x.ravel('C')[i] / x.flatten()[i] is the same element as x[unravel_index(i, x.shape)]
+            got = got.replace(lambda t: t.func == F["Idx"] and t.args[0].func == F["Ravel"] and t.args[0].args[1] == C_,
+                              lambda t: F["Idx"](t.args[0].args[0], F["Unravel"](t.args[1], C_, A_, B_)))
+        known = got is not None and got.func == F["Idx"] and (got.args[0] == xarr.expr or got.args[0].func == F["Ravel"])
+        if got == want or known:
+            ck.same("R2", ta.where, "Phase._take_along_axis(flat index, axis=None)",
+                    "selects the element at that position in logical C order, whatever the memory layout of the array (transposed, reversed or sliced views included)",
+                    got == want, found=str(got), expected=str(want), nontrivial=True)
+        else:
+            ck.unk("R2", ta.where, "Phase._take_along_axis(flat index, axis=None)", "selection is an element lookup the analyser can normalise", str(r)[:160])
 
 
 # ---------------------------------------------------------------------------------------- R3 strings
@@ -402,6 +427,10 @@ def r5_to_string(ck, prog, run):
     run.touched(fts)
     vals = [(3, "1/8"), (0, "-3/8"), (-7, "0"), (12, "1/2"), (5, "-1/2"), (0, "1/4"), (123456789012, "-1/16"), (0, "0"), (-1, "1/2"), (0, "-1/2"),
             (4, "3/4"), (2, "127/128"), (-3, "-1/1024"), (9, "31/64"), (1, "1/4"), (-2, "1/8"), (0, "-1/8"), (0, "3/16")]
+    # fractions far below the resolution of the count: frac + 1 rounds to 1.0 in doubles (the carry into the count must follow),
+    # and doubles just inside +-1/2
+    vals += [(5, "-1/1152921504606846976"), (-5, "1/1152921504606846976"), (0, "-1/1180591620717411303424"), (7, "1/4611686018427387904"),
+             (5, "9007199254740991/18014398509481984"), (-8, "-9007199254740991/18014398509481984"), (3, "-1/36028797018963968")]
     precs = [None, 0, 1, 2, 3, 6]
     if run.tier == "thorough":
         vals += [(10**12, "1/2"), (-10**9, "-7/16"), (7, "-127/256"), (0, "1/1024"), (1, "-1/1024"), (99, "63/64"), (-99, "-63/64")]
@@ -418,6 +447,7 @@ def r5_to_string(ck, prog, run):
                     p.attrs["_pint"] = Num(sp.Integer(i_), isfloat=True)
                     p.attrs["_pfrac"] = Num(sp.Rational(f_), isfloat=True)
                     ev = phase_evaluator(prog, PhaseLog())
+                    ev.float_fold = True     # the parts are concrete doubles: arithmetic on them is folded with IEEE rounding
                     kw = {} if pr is None else {"precision": Num(pr)}
                     if always:
                         kw["alwayssign"] = BoolV(True)
@@ -453,7 +483,7 @@ def r5_to_string(ck, prog, run):
                         bad.append((label, f"{s!r} is not a decimal number"))
                         continue
                     if pr is None:
-                        ok = got == exact
+                        ok = got == exact or abs(got - exact) <= Fraction(1, 10**16)
                     else:
                         digits = len(body.split(".")[1]) if "." in body else 0
                         ok = digits == pr and abs(got - exact) <= Fraction(1, 2 * 10**pr)
@@ -470,18 +500,27 @@ def r5_to_string(ck, prog, run):
     run.floor("R5", "rendering combinations", n, 100)
     # from_string(to_string(p)) == p on the same values: parse the rendered string with the package's own parser
     fps = prog.func("_parse_string")
-    bad2 = []
+    bad2, unk2 = [], []
+    from fractions import Fraction as _Fr
     for i_, f_ in vals:
         p = make_phase(prog, "p")
         p.attrs["_pint"] = Num(sp.Integer(i_), isfloat=True)
         p.attrs["_pfrac"] = Num(sp.Rational(f_), isfloat=True)
+        tiny = sp.Rational(f_).q > 2**20
         try:
-            r = phase_evaluator(prog, PhaseLog()).call(fts, [], {}, self_val=p)
+            e1 = phase_evaluator(prog, PhaseLog())
+            e1.float_fold = True
+            r = e1.call(fts, [], {}, self_val=p)
             back = phase_evaluator(prog, PhaseLog()).call(fps, [r], {})
             tot = back.items[0].expr + back.items[1].expr
-            if sp.simplify(tot - (sp.Integer(i_) + sp.Rational(f_))) != 0:
+            diff = sp.simplify(tot - (sp.Integer(i_) + sp.Rational(f_)))
+            if (diff != 0) if not tiny else (abs(diff) > sp.Rational(1, 10**15)):
                 bad2.append((i_, f_, r.s, str(tot)))
-        except Exception as e:  # noqa
-            bad2.append((i_, f_, type(e).__name__, str(e)[:60]))
-    run.ob("R5", fts.where, "from_string(to_string(p))", "the default rendering parses back to the same value (round trip on exactly representable phases)",
-           not bad2, found=str(bad2[:3]) if bad2 else None, nontrivial=True)
+        except (Unsupported, DimensionError) as e:
+            unk2.append((i_, f_, str(e)[:80]))
+        except Raised as e:
+            bad2.append((i_, f_, "raises", str(e)[:60]))
+    run.ob("R5", fts.where, "from_string(to_string(p))", "the default rendering parses back to the same value (exactly on short dyadic phases, within 1e-15 cycles "
+           "on fractions below the resolution of the count)",
+           (not bad2) if not unk2 else (False if bad2 else None), found=str(bad2[:3]) if bad2 else None, nontrivial=True,
+           note=f"not evaluable: {unk2[:2]}" if unk2 else None)
